@@ -117,6 +117,8 @@ class LinSpaceBuilder(ProgramBuilder):
 
         self._stack = [[]]
         self._ranges = []
+        # for each open frame of self._stack: the loop index the frame introduces (None for root and repetitions)
+        self._frame_index = [None]
 
     def _root(self):
         return self._stack[0]
@@ -127,8 +129,10 @@ class LinSpaceBuilder(ProgramBuilder):
     def inner_scope(self, scope: Scope) -> Scope:
         """This function is necessary to inject program builder specific parameter implementations into the build
         process."""
-        if self._ranges:
-            name, _ = self._ranges[-1]
+        # like LoopBuilder.inner_scope: only the frame of an iteration injects its loop index. A repetition must not
+        # overwrite the index of the enclosing iteration again: that would undo a mapping of the index in between.
+        name = self._frame_index[-1]
+        if name is not None:
             return scope.overwrite({name: SimpleExpression(base=0, offsets={name: 1})})
         else:
             return scope
@@ -190,8 +194,10 @@ class LinSpaceBuilder(ProgramBuilder):
         if repetition_count == 0:
             return
         self._stack.append([])
+        self._frame_index.append(None)
         yield self
         blocks = self._stack.pop()
+        self._frame_index.pop()
         if blocks:
             self._stack[-1].append(LinSpaceRepeat(body=tuple(blocks), count=repetition_count))
 
@@ -208,9 +214,11 @@ class LinSpaceBuilder(ProgramBuilder):
         if len(rng) == 0:
             return
         self._stack.append([])
+        self._frame_index.append(index_name)
         self._ranges.append((index_name, rng))
         yield self
         cmds = self._stack.pop()
+        self._frame_index.pop()
         self._ranges.pop()
         if cmds:
             self._stack[-1].append(LinSpaceIter(body=tuple(cmds), length=len(rng)))
